@@ -32,7 +32,12 @@ func (n *nodeMemberManager) NotifyGossipLeave(id uint64) {
 	for _, session := range sessions {
 		lwt := session.LWT
 		if lwt != nil {
-			n.log.Append(lwt)
+			// the stored will carries the topic as the client gave it: publish
+			// it inside the session's mount point, like every other message.
+			// (copy: the metadata entry must keep the client's topic)
+			will := *lwt
+			will.Topic = []byte(session.MountPoint + "/" + string(lwt.Topic))
+			n.log.Append(&will)
 		}
 	}
 	go func() {
